@@ -215,7 +215,7 @@ class Sched:
 
     def fail(self):
         self.emit({'op': 'pollFail', 'base': False, 'how': self.rng.choice(
-            ['rpc', 'garbage', 'noargs', 'keyerror', 'rpc_noargs', 'badstr', 'oserror'])})
+            ['rpc', 'garbage', 'bad_update', 'bad_update', 'noargs', 'keyerror', 'rpc_noargs', 'badstr', 'oserror'])})
 
     def malformed(self):
         tps = [self.tp('m') for _ in range(self.rng.randint(1, 3))]
